@@ -71,28 +71,56 @@ def direct_reads(sc, st):
     return out
 
 
+_SHELL_SAFE = set("abcdefghijklmnopqrstuvwxyzABCDEFGHIJKLMNOPQRSTUVWXYZ0123456789_+-./")
+
+
+def shq(name):
+    """What $in / $out expand to for one path inside a command line or rspfile_content (the manual: "shell-quoted"): names made
+    of [A-Za-z0-9_+-./] verbatim, anything else in single quotes with embedded quotes as '\\''.  Written from the property text
+    (C16), not from util.cc."""
+    if name and all(ch in _SHELL_SAFE for ch in name):
+        return name
+    return "'" + name.replace("'", "'\\''") + "'"
+
+
+def npath(p):
+    """a path as it has to be spelt in a manifest"""
+    return p.replace("$", "$$").replace(" ", "$ ").replace(":", "$:")
+
+
+def eval_path_expr(expr, st, quoted):
+    """depfile_expr / rsp_expr: a binding value written with $out / $in on the rule ("depfile = deps/$out.d")."""
+    q = shq if quoted else (lambda x: x)
+    return expr.replace("$out", " ".join(q(o) for o in st["outs"])).replace("$in", " ".join(q(i) for i in st["ins"]))
+
+
 def cmd_string(st):
-    """The evaluated command line (paths are shell-safe by construction, so no quoting happens)."""
+    """The evaluated command line: $in / $out shell-quoted where a name needs it (identity for the generator's plain names)."""
     if st["kind"] == "phony":
         return ""
     s = "sim %s v%d" % (st["id"], st["ver"])
     if st["ins"]:
-        s += " " + " ".join(st["ins"])
-    s += " > " + " ".join(st["outs"])
+        s += " " + " ".join(shq(x) for x in st["ins"])
+    s += " > " + " ".join(shq(x) for x in st["outs"])
     if st["rsp"]:
-        s += " @" + st["rsp"]
+        s += " @" + (eval_path_expr(st["rsp_expr"], st, True) if st.get("rsp_expr") else st["rsp"])
     return s
 
 
 def rsp_string(st):
     if not st["rsp"]:
         return ""
-    return st["rsp_content"].replace("$empty", "").replace("$in_newline", "\n".join(st["ins"])).replace("$in", " ".join(st["ins"])).replace(
-        "$out", " ".join(st["outs"]))
+    ins = [shq(x) for x in st["ins"]]
+    return st["rsp_content"].replace("$empty", "").replace("$in_newline", "\n".join(ins)).replace("$in", " ".join(ins)).replace(
+        "$out", " ".join(shq(x) for x in st["outs"]))
 
 
 def follows(st):
     return st["deps"] != "none" or st["dd"] or st.get("force_follow", False)
+
+
+def rule_name(st):
+    return st.get("rule_name") or "r_" + st["id"]
 
 
 def render_manifest(sc):
@@ -104,10 +132,18 @@ def render_manifest(sc):
         L.append("builddir = %s" % sc["builddir"])
     for name, depth in sorted(sc.get("pools", {}).items()):
         L += ["pool %s" % name, "  depth = %d" % depth]
+    top = L
+    subs = {}          # statements may live in files of their own, included with `subninja` (st["file"]); a rule name (st["rule_name"],
+                       # default r_<id>) may be declared again there: a new rule of the same name in the scope of that file
+
+    def lines_of(st):
+        f = st.get("file") or "build.ninja"
+        return top if f == "build.ninja" else subs.setdefault(f, [])
     for st in sc["stmts"]:
         if st["kind"] == "phony":
             continue
-        L.append("rule r_%s" % st["id"])
+        L = lines_of(st)
+        L.append("rule %s" % rule_name(st))
         cmd = "sim %s v%d" % (st["id"], st["ver"])
         cmd += (" $in" if st["ins"] else "") + " > $out"
         if st["rsp"]:
@@ -122,35 +158,42 @@ def render_manifest(sc):
         if st["deps"] in ("gcc", "msvc"):
             L.append("  deps = %s" % st["deps"])
         if st["depfile"] and st["deps"] != "msvc":
-            L.append("  depfile = %s" % st["depfile"])
+            L.append("  depfile = %s" % (st.get("depfile_expr") or npath(st["depfile"])))
         if st["rsp"]:
-            L.append("  rspfile = %s" % st["rsp"])
+            L.append("  rspfile = %s" % (st.get("rsp_expr") or npath(st["rsp"])))
             L.append("  rspfile_content = %s" % st["rsp_content"])
         if st["dyndep"] and st["dyndep_on_rule"]:
-            L.append("  dyndep = %s" % st["dyndep"])
+            L.append("  dyndep = %s" % npath(st["dyndep"]))
     for st in sc["stmts"]:
-        line = "build " + " ".join(st["outs"])
+        L = lines_of(st)
+        line = "build " + " ".join(npath(x) for x in st["outs"])
         if st["iouts"]:
-            line += " | " + " ".join(st["iouts"])
-        line += ": " + ("phony" if st["kind"] == "phony" else "r_" + st["id"])
+            line += " | " + " ".join(npath(x) for x in st["iouts"])
+        line += ": " + ("phony" if st["kind"] == "phony" else rule_name(st))
         if st["ins"]:
-            line += " " + " ".join(st["ins"])
+            line += " " + " ".join(npath(x) for x in st["ins"])
         if st["iins"]:
-            line += " | " + " ".join(st["iins"])
+            line += " | " + " ".join(npath(x) for x in st["iins"])
         if st["oins"]:
-            line += " || " + " ".join(st["oins"])
+            line += " || " + " ".join(npath(x) for x in st["oins"])
         if st["vals"]:
-            line += " |@ " + " ".join(st["vals"])
+            line += " |@ " + " ".join(npath(x) for x in st["vals"])
         L.append(line)
         if st["pool"]:
             L.append("  pool = %s" % st["pool"])
         if st["generator"] and st.get("gen_on_build"):
             L.append("  generator = 1")        # a statement-level binding shadows the rule's
         if st["dyndep"] and not st["dyndep_on_rule"]:
-            L.append("  dyndep = %s" % st["dyndep"])
+            L.append("  dyndep = %s" % npath(st["dyndep"]))
+    L = top
+    for f in sorted(subs):
+        L.append("subninja %s" % f)
     if sc.get("defaults"):
-        L.append("default " + " ".join(sc["defaults"]))
-    return {"build.ninja": "\n".join(L) + "\n"}
+        L.append("default " + " ".join(npath(x) for x in sc["defaults"]))
+    files = {"build.ninja": "\n".join(L) + "\n"}
+    for f, ls in subs.items():
+        files[f] = "\n".join(ls) + "\n"
+    return files
 
 
 def render_stmts(sc):
